@@ -15,7 +15,8 @@ EXTENDS RxnCases, Balance, Formula, TLC, Json, IOUtils, SequencesExt
 VARIABLE dummy
 
 Full == IOEnv.SCOPE = "thorough"
-RxnSet == {c \in FamilyA(0) \cup FamilyB(0) : ~CaseHasTie(c)} \cup FamilyC(Full) \cup FamilyD(0)
+RxnSet == {c \in FamilyA(0) \cup FamilyB(0) \cup FamilyF(0) : ~CaseHasTie(c)} \cup FamilyC(Full) \cup FamilyD(0)
+          \cup FamilyG(0)
           \cup (IF Full THEN FamilyE(0) ELSE {})
 RxnOut(c) == IF c.kind = "print"
              THEN [kind |-> "print", r |-> c.r, d |-> c.d, space |-> c.space, spd |-> c.spd,
